@@ -50,6 +50,8 @@ type GateConn struct {
 	// Write was inside the transport ("" if none): on a net.Conn the new
 	// deadline applies to that pending Write as well.
 	DlDuringWrite string
+	// ReadDeadlineSet describes the first SetDeadline / SetReadDeadline call.
+	ReadDeadlineSet string
 	// FailedAt is the number of writes that had been accepted when the
 	// scheduler made a pending Write fail (-1: no failure injected); FailSeq is
 	// the global stamp of that moment.
@@ -223,8 +225,30 @@ func (c *GateConn) Close() error {
 	return nil
 }
 
-func (c *GateConn) SetDeadline(t time.Time) error     { return c.SetWriteDeadline(t) }
-func (c *GateConn) SetReadDeadline(t time.Time) error { return nil }
+func (c *GateConn) SetDeadline(t time.Time) error {
+	c.noteReadDeadline("SetDeadline", t)
+	return c.SetWriteDeadline(t)
+}
+func (c *GateConn) SetReadDeadline(t time.Time) error {
+	c.noteReadDeadline("SetReadDeadline", t)
+	return nil
+}
+
+func (c *GateConn) noteReadDeadline(call string, t time.Time) {
+	c.mu.Lock()
+	if c.ReadDeadlineSet == "" {
+		c.ReadDeadlineSet = fmt.Sprintf("%s(%s)", call, fmtDl(t))
+	}
+	c.mu.Unlock()
+}
+
+// ReadDeadlineTouched returns the first call that changed the read deadline
+// ("" if none).
+func (c *GateConn) ReadDeadlineTouched() string {
+	c.mu.Lock()
+	defer c.mu.Unlock()
+	return c.ReadDeadlineSet
+}
 func (c *GateConn) SetWriteDeadline(t time.Time) error {
 	c.mu.Lock()
 	if c.inside > 0 && c.DlDuringWrite == "" && !t.Equal(c.curDl) {
